@@ -13,7 +13,7 @@ sys.path.insert(0, HERE)
 import engine  # noqa: E402
 
 
-def run_driver(drv, repo, work, o=None, timeout_s=1500):
+def run_driver(drv, repo, work, o=None, timeout_s=600):
     """drv: dict(file=<path under /verif/native>, attach=<crate-relative source file>, test=<test name filter>)"""
     dst = os.path.join(work, 'native-repo')
     if os.path.exists(dst):
